@@ -350,4 +350,40 @@ Section Trace.
     destruct (Z.leb_spec 0 d); [|lia]. destruct (Z.leb_spec d (pP p)); [|lia]. reflexivity.
   Qed.
 
+
+  (* ---- clause 17: a dial with a learned address against the running listener completes ---- *)
+  (* the certificate bucket c' presents at instant [now], as the dialer's verifier sees it *)
+  Definition served_xcert (c' now : Z) : xcert :=
+    mkX (Hc c') true false 0 (grid c' - now) (grid c' + pV p - now).
+
+  Lemma learned_dial_completes c hl c' hl' now :
+    bounds c' now -> c <= c' <= c + 1 -> (c' = c + 1 -> hl' = true) -> pV p <= pMaxLife p ->
+    pMaxLife p <= spec_max_validity ->
+    let addr := hashes_of H (m_addr (mgr_at c hl)) in
+    let srv := hashes_of H (m_ser (mgr_at c' hl')) in
+    dial p [served_xcert c' now] addr true srv = 0 /\
+    monitor_genuine_dial [served_xcert c' now] addr true srv (dial p [served_xcert c' now] addr true srv) = [].
+  Proof.
+    intros (_ & B1 & B2) Hk Hhl HV HM. cbv zeta. destruct Hwf as (HS & _).
+    assert (E : dial p [served_xcert c' now] (hashes_of H (m_addr (mgr_at c hl))) true
+                     (hashes_of H (m_ser (mgr_at c' hl'))) = 0).
+    { unfold dial, verify_raw_certs, verify_with.
+      assert (Hi : inspected p [served_xcert c' now] = Some (served_xcert c' now))
+        by (unfold inspected; destruct (pLeafLast p =? 0); reflexivity).
+      rewrite Hi, pinned_advertises.
+      replace (x_hash (served_xcert c' now)) with (Hc c') by reflexivity.
+      rewrite (addr_advertises c hl c' Hk).
+      replace (x_parse (served_xcert c' now)) with true by reflexivity.
+      replace (is_rsa (served_xcert c' now)) with false by reflexivity.
+      replace (x_na (served_xcert c' now)) with (grid c' + pV p - now) by reflexivity.
+      replace (x_nb (served_xcert c' now)) with (grid c' - now) by reflexivity.
+      cbn [negb].
+      destruct (Z.ltb_spec (pMaxLife p) (grid c' + pV p - now - (grid c' - now))); [lia|].
+      destruct (Z.ltb_spec 0 (grid c' - now)); [lia|].
+      destruct (Z.ltb_spec (grid c' + pV p - now) 0); [lia|]. cbn [orb andb].
+      rewrite (addr_confirmed c hl c' hl' Hk Hhl). reflexivity. }
+    split; [exact E|]. unfold monitor_genuine_dial.
+    rewrite (monitor_dial_ok p _ _ true _ HM); [rewrite E; reflexivity|].
+    right. cbn. lia.
+  Qed.
 End Trace.
